@@ -257,10 +257,15 @@ pub fn content_bytes(pt: Pt, n: usize, w: usize, content: Content, seed: u64) ->
                 _ => {
                     let f: f32 = match content {
                         Content::Random => {
-                            if (r >> 60) < 12 {
+                            let k = r >> 59; // 0..32
+                            if k < 22 {
                                 v16 as f32 / 65535.0
-                            } else {
+                            } else if k < 30 {
                                 (v16 as f32 - 32768.0) / 32.0
+                            } else {
+                                // subnormal values (flush-to-zero / denormals-are-zero modes of
+                                // the FPU would change them)
+                                f32::from_bits(1 + (v16 & 0x7fff))
                             }
                         }
                         _ => v16 as f32 / 65535.0,
